@@ -23,6 +23,11 @@ LEVEL = 'exploration'
 BUDGET = {'quick': 75, 'thorough': 480}
 # deterministic sub-checks repeated in a `python -O` child (core.optimized_child)
 OPT_SUBS = ('commas/malformed', 'split_path/exhaustive')
+# documented call interface the generated calls rely on (vcheck/callstyle.py)
+INTERFACE = [('oslo_utils.strutils', ['split_path', 'split_by_commas'])]
+# pairs of sampled cases are run against each other under every single
+# preemption inside these modules (core.preempt_pair)
+PREEMPT_MODULES = ['oslo_utils.strutils']
 RULE = ('split_path: every path made of 0..K segments over {plain(position '
         'tagged), empty, dotted, spaced} with and without a leading slash '
         '(trailing slashes arise from trailing empty segments) x minsegs 1..4 '
@@ -549,6 +554,41 @@ def commas_grammar(col, length, prefix):
     col.exhaustive[sub] = complete
 
 
+def commas_first_use(col, trials):
+    """Schedules: the first split_by_commas calls in a process, by eight
+    threads at once (core.first_use_race): malformed and well-formed lists
+    mixed, each judged by the reference scanner."""
+    sub = 'commas/first-use'
+    texts = ('a,b', '"a,b",c', 'a"b,cd', 'a,', '"ab""b"', 'a,b"', ',a',
+             'x', '"q"', 'a,,b', '"a\\"b"', 'ab"', '"', 'a, b', '', 'a,"')
+
+    def make_jobs(t):
+        jobs = []
+        for i in range(8):
+            v = texts[(t * 3 + i * 5) % len(texts)]
+            jobs.append((v, {'value': v}, lambda v=v: check_commas_text(
+                core.Collector(), sub, v)))
+        return jobs
+
+    core.first_use_race(col, sub, ['oslo_utils.strutils'], make_jobs, trials)
+
+
+def commas_preempt(col):
+    """Every single preemption (line granularity) of the first
+    split_by_commas call of a process by a second one."""
+    sub = 'commas/preempt'
+    pairs = (('a,b', 'a"b,cd'), ('a,', '"q",x'), ('"a,b",c', 'a,b"'),
+             ('x', '"ab""b"'))
+    for a, b in pairs:
+        core.preemption_sweep(
+            col, sub, ['oslo_utils.strutils'],
+            lambda a=a: check_commas_text(core.Collector(), sub, a),
+            lambda b=b: check_commas_text(core.Collector(), sub, b),
+            'split_by_commas(%r) | split_by_commas(%r)' % (a, b),
+            sample={'value': b})
+    col.exhaustive.setdefault(sub, False)
+
+
 def commas_format_tokens(col):
     """Deterministic: every malformed construction with printf / str.format
     tokens in the offending text (and the same tokens in well-formed lists,
@@ -653,6 +693,9 @@ def tasks(tier, seed):
     for i in range(mal_shards):
         if i == 0:
             out.append(Task('commas/malformed', commas_format_tokens))
+            out.append(Task('commas/preempt', commas_preempt))
+            out.append(Task('commas/first-use', commas_first_use,
+                            trials=30 if tier == 'quick' else 300))
         out.append(Task('commas/malformed', commas_malformed,
                         seed=core.derive_seed(seed, ID, 'mal', i),
                         max_examples=mal_n))
@@ -670,7 +713,11 @@ def replay(rec):
     case = rec['case']
     sub = rec.get('sub', 'replay')
     col = core.Collector()
-    if 'path' in case:
+    if case.get('preempt'):
+        commas_preempt(col)
+    elif case.get('first_use_threads'):
+        commas_first_use(col, case.get('trial', 0) + 1)
+    elif 'path' in case:
         check_split_path(case, sub)
     elif 'items' in case:
         check_roundtrip(col, sub, case['items'], case.get('mode', 'min'))
